@@ -45,6 +45,9 @@ func runPO(ld *Loaded, r *sym.Run, st *sym.State, j Job, opt Options, scen int) 
 	if j.H.MaxSpawn > 0 {
 		po.MaxSpawn = j.H.MaxSpawn
 	}
+	if j.H.MaxClasses > 0 {
+		po.MaxClasses = j.H.MaxClasses
+	}
 	// Passes: start with the locations touched by atomic/channel/mutex operations as shared;
 	// after each pass, plain locations written by one thread and accessed by another become
 	// shared too; repeat until neither the shared set nor the value classes change.
@@ -118,6 +121,9 @@ func runPO(ld *Loaded, r *sym.Run, st *sym.State, j Job, opt Options, scen int) 
 		queries = []sym.POQuery{
 			{Name: "witness:end", Goal: sym.ReachAllGoal()},
 			{Name: "race", Race: true},
+		}
+		if j.H.UnwindCheck {
+			queries = append(queries, sym.POQuery{Name: "unwinding", Goal: sym.CutGoal()})
 		}
 	}
 	kf := loadKnown()
